@@ -11,19 +11,20 @@ from enc import ForestDump, forest_alt_keys, oracle_alt_keys, skip_table
 MANIFEST_ENTRY = {
     "category": "proof",
     "text": "The complete SPPF of an input (every production of every useful span with every derivable split) is "
-            "computed by the Lean spec from the chart whose correctness (sound; complete once saturated) is a "
-            "theorem for every CFG; the implementation forest's packed alternatives are compared with it in both "
+            "computed by the Lean spec from the chart; the spec is proved EXACT for every CFG and input "
+            "(C02_reference_sppf_exact: whenever it answers, its list holds exactly the packed alternatives -- span, "
+            "production, split into derivable pieces -- of the spans occurring top-down in some parse; chart sound and "
+            "complete once saturated); the implementation forest's packed alternatives are compared with it in both "
             "directions on every explored sentence",
-    "note": "trusted: Lean kernel; the top-down usefulness closure of Spec/SPPF.lean is executable spec (its "
-            "children are checked derivable against the proved chart); glr.py's reducer is not modelled: forest "
+    "note": "trusted: Lean kernel; glr.py's reducer is not modelled: forest "
             "completeness is decided by this verified-oracle comparison on the explored scope; lost derivations on "
             "hidden-left-recursive grammars are the recorded finding F-GLR-2",
-    "technique": "Lean 4 proof of chart correctness + verified-oracle comparison of packed alternatives",
+    "technique": "Lean 4 proof (chart correctness, exactness of the reference SPPF) + verified-oracle comparison of packed alternatives",
 }
 
 PROP = "C02"
 LEVEL = "proof"
-THEOREMS = ["C02_chart_sound", "C02_chart_complete", "C02_split_pieces_derivable"]
+THEOREMS = ["C02_chart_sound", "C02_chart_complete", "C02_split_pieces_derivable", "C02_reference_sppf_exact"]
 META = {
     "rule": "cases = (acyclic grammar, LALR|SLR, sentence incl. layout variants); non-trivial = complete SPPF with "
             "an ambiguous span (>= 2 alternatives for one node); distinct by (grammar, tables, input)",
